@@ -36,6 +36,8 @@ def scenarios() -> list[dict]:
     return [
         {"name": "zip-repeat", "desc": {"funcs": [fn("f", ["a", "b"], ["y"], zipms), fn("g", ["y"], ["w"], gms)]},
          "inputs": [["a", arr(["@p", "@p", "@q", "@p"])], ["b", arr(["@r", "@r", "@r", "@s"])]]},
+        {"name": "zip-repeat-none", "desc": {"funcs": [dict(fn("f", ["a", "b"], ["y"], zipms), retnone=True), fn("g", ["y"], ["w"], gms)]},
+         "inputs": [["a", arr(["@p", "@p", "@q", "@p"])], ["b", arr(["@r", "@r", "@r", "@s"])]]},
         {"name": "outer-repeat", "desc": {"funcs": [fn("f", ["a", "b"], ["y"], outer), fn("g", ["y"], ["w"], red)]},
          "inputs": [["a", arr(["@p", "@p", "@q"])], ["b", arr(["@r", "@r"])]]},
         {"name": "chain", "desc": {"funcs": [fn("f", ["s"], ["y"], None), fn("g", ["y", "s"], ["w"], None)]},
@@ -172,6 +174,7 @@ def history(scen: dict, cache_type: str, parallel) -> dict:
         with contextlib.suppress(FileNotFoundError):
             os.unlink(logf)
     return {"desc": scen["desc"], "inputs": scen["inputs"], "ev": evs,
+            "strict": cache_type == "simple" and not parallel,      # never evicts + sequential: resident entries MUST be used
             "meta": {"scenario": scen["name"], "cache_type": cache_type, "parallel": parallel}}
 
 
